@@ -90,6 +90,9 @@ def probe_dead(rec, sim, R, sid, V, what, rng=None):
 def run_history(rec, case):
     rng = gen.mkrng('c16', case['seed'], case['i'])
     srv = rng.choice(['T', 'A'])
+    if srv == 'A' and case.get('aio'):
+        srv = case['aio']    # asyncio server behind the aiohttp adapter
+        rec.count('histories_on_aiohttp_adapter')
     pi, pt = rng.choice([(5, 3), (1, 1), (2, 0.5), (25, 20)])
     monitor = rng.random() < 0.8
     nact = case.get('nact', 120)
@@ -331,6 +334,8 @@ def run_shard(spec):
     cases = [{'seed': spec['seed'], 'i': spec['shard'] * 1000000 + k,
               'nact': spec['nact'], 'maxs': spec['maxs']}
              for k in range(spec['n'])]
+    for c in cases[::2]:
+        c['aio'] = 'H'
     scen.run_cases(rec, cases, run_history)
     return rec.result()
 
